@@ -21,7 +21,7 @@ type Finding struct {
 	ID       string `json:"id"`
 	Property string `json:"property"`
 	Status   string `json:"status"` // open | fixed
-	Kind     string `json:"kind"`   // exact-input | call-site
+	Kind     string `json:"kind"`   // exact-input | call-site | message | race
 	Summary  string `json:"summary"`
 	Commit   string `json:"commit,omitempty"`
 	// exact-input: the serialised cases; matched by case hash.
@@ -448,7 +448,18 @@ func (d *Driver) matchFinding(v ViolationRec, witnessHashes map[string]*Finding)
 		var hit *Finding
 		for i := range d.Findings {
 			f := &d.Findings[i]
-			if f.Status != "open" || f.Kind != "call-site" {
+			if f.Status != "open" || (f.Kind != "call-site" && f.Kind != "message") {
+				continue
+			}
+			if f.Kind == "message" {
+				// a failure of one oracle clause (tag = Entry) whose message starts with PanicPrefix, e.g. a
+				// specific parse error of an embedded font program; rate-capped like call-site findings
+				if strings.HasPrefix(m, f.Entry+": "+f.PanicPrefix) {
+					hit = f
+				}
+				if hit != nil {
+					break
+				}
 				continue
 			}
 			for _, entry := range strings.Split(f.Entry, "|") { // several public entry points may reach one site
@@ -515,7 +526,7 @@ func (d *Driver) Report(order []string, aggs map[string]*StratumAgg, hangs []han
 	var rateAlarms []string
 	for i := range d.Findings {
 		f := &d.Findings[i]
-		if f.Kind != "call-site" || f.Status != "open" {
+		if (f.Kind != "call-site" && f.Kind != "message") || f.Status != "open" {
 			continue
 		}
 		for name, n := range knownPerStratum[f.ID] {
